@@ -13,16 +13,18 @@ EXPLANATION = ("Leaf contracts proved deductively on the real code: the chronolo
                "lots (inductive loop invariant, all list lengths and partial-amount maps); the three feature-based plugins' sort_key return exactly "
                "(-price, time, row) / (price, time, row) / (0, -time, -row); rank lemmas: the minimum key is never strictly worse ranked in the statement's "
                "sense (highest price / lowest price / newest), keys injective on rows. The composition over whole histories (engine, heap of the "
-               "feature-based methods, schedule, carry-over) is checked by the bounded end-to-end stand-in, not proved.")
+               "feature-based methods, schedule, carry-over) is checked by the bounded end-to-end stand-in, not proved."
+               " Since session 5 also proved on the real bodies, against contracts over the engine's representation invariant engine_inv (contracts/engine.py): AccountingEngine.get_acquired_lot_for_taxable_event (same event with taxable_event_amount - acquired_lot_amount left; the lot returned is one of the engine's lots, not later than the event, with all that was available of it, > 0; no other lot's availability changes), AccountingEngine.get_next_taxable_event_and_amount (next list element with its full crypto_balance_change; same instant keeps the lot in hand with the difference; a newer event writes the remainder back and seeks again; a used-up lot is not handed out again) and tax_engine._get_next_taxable_event_and_acquired_lot; callee preconditions (the seek's wf) discharged at the call sites. Assumed and listed: prezzemolo's floor lookup as a pure function, engine_inv after initialize (its visible part pinned by shape obligations), the heap-based set_to_index/seek (A-HEAP). The while loop of _create_unfiltered_gain_and_loss_set is not proved.")
 TRUSTED = ["A-HEAP: heapq pops a minimum-key element (the heap of LIFO/HIFO/LOFO is not under contract: bounded only)", "A-FLOATTS: datetime.timestamp() strictly monotone",
            "amounts on the 1e-11 grid (tolerant comparisons = exact)", "A-ANNOT", "lot ids pairwise distinct (valid history)"]
-ASSUMPTIONS = TRUSTED
+ASSUMPTIONS = TRUSTED + ["A-AVL/engine_inv: the engine's representation invariant holds after AccountingEngine.initialize (AVL insertions and tree walk outside the subset; visible part pinned by the establishes.* shape obligations)"]
 E2E = {"quick": 120, "thorough": 4000, "on_doubt": 600}
 METHODS = ["fifo", "lifo", "hifo", "lofo"]
 
 
 def items(pr):
-    out = [fn(AAM + "AbstractChronologicalAccountingMethod.seek_non_exhausted_acquired_lot"), lemma("C01.rank"), custom("plugins_complete", plugins_complete), custom("lot_window", lot_window)]
+    out = [fn(AAM + "AbstractChronologicalAccountingMethod.seek_non_exhausted_acquired_lot"), lemma("C01.rank"), custom("plugins_complete", plugins_complete), custom("lot_window", lot_window),
+           fn("rp2.accounting_engine.AccountingEngine.get_next_taxable_event_and_amount"), fn("rp2.accounting_engine.AccountingEngine.get_acquired_lot_for_taxable_event")]
     for m in ("lifo", "hifo", "lofo"):
         out.append(fn(f"{PLUG}{m}.AccountingMethod.sort_key"))
     return out
@@ -80,5 +82,5 @@ MANIFEST_ENTRY = {
              "real _create_unfiltered_gain_and_loss_set here: the feature-based heap (heapq) and the AVL tree are outside the verified subset, so the "
              "claim is 'other', not 'proof'. Known finding F-9.3-C01 (same instant, different local years under a schedule). Fixed finding 9.1 "
              "(lot lost during income events) is replayed as a regression input."),
-    "technique": "contract-based deductive verification of the leaf functions (sidecar contracts, VCs from the AST, z3/cvc5) + bounded native stand-in for the composition (labelled bounded)",
+    "technique": "contract-based deductive verification of the leaf functions and of the accounting-engine methods between the matcher loop and the lot seek (sidecar contracts, VCs from the AST, z3/cvc5; AVL lookups and the heap-based half as assumed contracts) + bounded native stand-in for the matcher loop's composition (labelled bounded)",
 }
